@@ -125,4 +125,16 @@ PROPS = {
                             'operations on 2- and 4-process grids, real and complex')],
         assumptions=['simulated MPI (vf/shim)'],
     ),
+    'C06': dict(
+        level='other',
+        contracts=[],
+        functions=[],
+        bounded=[dict(module='vf.rt.bounded_sync', prop='C06',
+                      bound='route maps of production and seeded random layout sets (incl. all six 3-D orderings) compared across '
+                            'interpreter hash seeds; handler construction, all layout changes, getMin/getMax (whole grid and fixed-index '
+                            'slices), getBlockFromDict, setupSave on 2-7 simulated ranks with seeded arrival jitter, with and '
+                            'without a plot-only rank; the simulated MPI raises on any mismatched or missing collective')],
+        assumptions=['simulated MPI (vf/shim): matching is checked per rendezvous on (operation, root, count, dtype)',
+                     'MPI progress: identical collective sequences on all members complete for every arrival order (assumed)'],
+    ),
 }
